@@ -267,7 +267,10 @@ def gen_file(rng, tier):
     elif m < 0.12:
         header = [["Contest", cid, str(len(c) + (9 if i == 0 else 0))] + list(c) + ["winner", w] for i, (cid, c, w) in enumerate(contests)]
         wellformed = False                                                                 # ncands too large
-    return raire_case(contests, rows, wellformed=wellformed, unlisted=unlisted, header=header)
+    out = raire_case(contests, rows, wellformed=wellformed, unlisted=unlisted, header=header)
+    from ..core import CONTAINER_KINDS
+    out["container"] = rng.choice(CONTAINER_KINDS)      # how the CVR list reaches Assorter.mean
+    return out
 
 
 def gen_raw(rng):
@@ -533,7 +536,8 @@ def impl_raire(case):
         rows = []
         for spec, a in zip(specs, _make_assertions(contest, cands, specs)):
             vals = [a.assorter.assort(c) for c in acvrs if c.has_contest(cid)]
-            mean = a.assorter.mean(acvrs, use_style=True) if vals else None
+            from ..core import container
+            mean = a.assorter.mean(container(case.get("container"), acvrs), use_style=True) if vals else None
             g = ru.NEBAssertion(cid, spec[1], spec[2]) if spec[0] == "NEB" else ru.NENAssertion(cid, spec[1], spec[2], list(spec[3]))
             rows.append({"sum": fr(sum(Fraction(v) for v in vals)), "n": len(vals),
                          "mean": None if mean is None else float(mean),
